@@ -33,6 +33,15 @@ SCENARIOS = {
                                                                           "B": [["send_text", P("B", 0)]]},
                                             "loop": {"bytes": SRV_CLOSE, "idle_waits": 0}, "copts": {"ping_rate": 0}},
 }
+SCENARIOS.update({
+    # three actors: a sender, a pinger (application ping / the loop's pong / the loop's automatic ping) and a closer
+    "send_ping_close": {"deflate": False, "threads": {"A": [["send_text", P("A", 0)]], "B": [["send_ping", "B-0:ping"]],
+                                                       "C": [["close", 1000, "c"]]}},
+    "send_autopong_close": {"deflate": False, "threads": {"A": [["send_text", P("A", 0)]], "C": [["close", 1000, "c"]]},
+                            "loop": {"bytes": SRV_PING, "idle_waits": 0}, "copts": {"ping_rate": 0}},
+    "send_autoping_close": {"deflate": False, "threads": {"A": [["send_binary", P("A", 0)]], "C": [["close", 1000, "c"]]},
+                            "loop": {"bytes": "", "idle_waits": 1}, "copts": {"ping_rate": 1.0, "poll": 2.0}},
+})
 BOUND2 = ["close_vs_text", "close_vs_close", "close_vs_ping", "close_vs_server_close_echo"]
 
 
